@@ -25,6 +25,9 @@ type objectStash struct {
 	rt     *runtime
 	outr   stasher
 	object *object
+	// provideThis: a call through a name found here has the object as this value (10.2.1.2.6:
+	// only the environment of a with statement, not the global one).
+	provideThis bool
 }
 
 func (s *objectStash) runtime() *runtime {
@@ -52,6 +55,7 @@ func (s *objectStash) clone(c *cloner) stasher {
 		c.runtime,
 		c.stash(s.outr),
 		c.object(s.object),
+		s.provideThis,
 	}
 	return out
 }
@@ -103,7 +107,9 @@ func (s *objectStash) outer() stasher {
 }
 
 func (s *objectStash) newReference(name string, strict bool, atv at) referencer {
-	return newPropertyReference(s.rt, s.object, name, strict, atv)
+	ref := newPropertyReference(s.rt, s.object, name, strict, atv)
+	ref.noThis = !s.provideThis
+	return ref
 }
 
 type dclStash struct {
